@@ -852,13 +852,19 @@ def decompose_matrix(matrix):
         np.negative(scale, scale)
         np.negative(row, row)
 
-    angles[1] = np.arcsin(-row[0, 2])
-    if np.cos(angles[1]):
-        angles[0] = np.arctan2(row[1, 2], row[2, 2])
-        angles[2] = np.arctan2(row[0, 1], row[0, 0])
-    else:
-        angles[0] = np.arctan2(-row[2, 1], row[1, 1])
-        angles[2] = 0.0
+    # `row` is the transposed rotation R = Rz(az) . Ry(ay) . Rx(ax).
+    # Close to gimbal lock (cos(ay) ~ 0) only `ax -+ az` is determined:
+    # the entries `cos(ay) * {sin, cos}(ax)` are lost in rounding noise,
+    # and `cos(ay)` is never exactly zero in floating point. So take
+    # `az` from the first column and then `ax` from the second row of
+    # `Rz(-az) . R = Ry(ay) . Rx(ax)` which is `(0, cos(ax), -sin(ax))`
+    # for every `ay`: whatever `az` was picked the product is reproduced
+    angles[2] = np.arctan2(row[0, 1], row[0, 0])
+    sz, cz = np.sin(angles[2]), np.cos(angles[2])
+    angles[0] = np.arctan2(
+        sz * row[2, 0] - cz * row[2, 1], cz * row[1, 1] - sz * row[1, 0]
+    )
+    angles[1] = np.arctan2(-row[0, 2], np.hypot(row[0, 0], row[0, 1]))
 
     return scale, shear, angles, translate, perspective
 
